@@ -140,8 +140,11 @@ type stream struct {
 	log         []string
 	nackNext    map[string]bool // the next request of these types carries error_detail
 	keepNonce   bool            // opened with connectOpts.keepNonce (read by the ztunnel first request)
-	zombie      bool            // the client has given this stream up without closing it (the server has not noticed): what the server sends on it vanishes
-	err         error           // what Stream / StreamDeltas returned (valid once done is closed)
+	cutStall    bool            // the cutAfter-th response stalls in Send instead of being cut
+	stalled     bool
+	stallCh     chan struct{}
+	zombie      bool  // the client has given this stream up without closing it (the server has not noticed): what the server sends on it vanishes
+	err         error // what Stream / StreamDeltas returned (valid once done is closed)
 }
 
 func newEnvoy(label string, delta bool, nodeName string) *envoy {
@@ -318,6 +321,43 @@ func (s *stream) kill() {
 
 var errClosed = status.Error(codes.Unavailable, "stream closed by the client")
 
+// stallHere: the scripted "stalled send" - the K-th response does not get through: Send blocks (the connection's
+// loop is stuck in it, a full TCP window) until the harness lets the stream die; the response is lost. Returns
+// true when this Send was the stalled one (it then fails).
+func (s *stream) stallHere(typ string) bool {
+	e := s.e
+	e.mu.Lock()
+	if s.dead || s.zombie || !s.cutStall || s.cutAfter == 0 || s.nResp+1 != s.cutAfter {
+		e.mu.Unlock()
+		return false
+	}
+	s.nResp++
+	s.stalled = true
+	s.touch()
+	s.logf("STALLED at response %d (%s)", s.nResp, typ)
+	ch := s.stallCh
+	e.mu.Unlock()
+	<-ch
+	return true
+}
+
+// releaseStall lets a stalled Send fail and the stream die.
+func (e *envoy) releaseStall() {
+	e.mu.Lock()
+	s := e.st
+	if s != nil && s.stalled && !s.dead {
+		s.kill()
+		close(s.stallCh)
+	}
+	e.mu.Unlock()
+}
+
+func (e *envoy) isStalled() bool {
+	e.mu.Lock()
+	defer e.mu.Unlock()
+	return e.st != nil && e.st.stalled
+}
+
 // cutCheck implements the scripted stream cut; it returns (apply, err-to-return, handled).
 func (s *stream) cutCheck() (apply bool, stop bool) {
 	s.nResp++
@@ -330,6 +370,9 @@ func (s *stream) cutCheck() (apply bool, stop bool) {
 // ---------------------------------------------------------------- SotW
 
 func (s sotwStream) Send(resp *discovery.DiscoveryResponse) error {
+	if s.stallHere(shortType(resp.TypeUrl)) {
+		return errClosed
+	}
 	e := s.e
 	e.mu.Lock()
 	defer e.mu.Unlock()
@@ -448,6 +491,9 @@ func (e *envoy) prune(typ string) {
 // ---------------------------------------------------------------- delta
 
 func (s deltaStream) Send(resp *discovery.DeltaDiscoveryResponse) error {
+	if s.stallHere(shortType(resp.TypeUrl)) {
+		return errClosed
+	}
 	e := s.e
 	e.mu.Lock()
 	defer e.mu.Unlock()
@@ -647,6 +693,7 @@ type connectOpts struct {
 	cutAfter  int
 	cutDrop   bool
 	cutErr    bool
+	cutStall  bool // the cutAfter-th response blocks in Send until releaseStall
 	hold      bool // do not send the first requests yet (the caller does via kick)
 	// the caller expects the server to refuse the stream (not ready): the returned error is not a client error
 	expectRefusal bool
@@ -666,6 +713,7 @@ func (e *envoy) connect(st *site, o connectOpts) *stream {
 		removedSeen: map[string]map[string]bool{}, nonces: map[string]string{}, cutAfter: o.cutAfter, cutDrop: o.cutDrop, cutErr: o.cutErr}
 	s.reconnect = len(e.nResp) > 0
 	s.keepNonce = o.keepNonce
+	s.cutStall, s.stallCh = o.cutStall, make(chan struct{})
 	s.touch()
 	if e.delta {
 		s.dlt = make(chan *discovery.DeltaDiscoveryRequest, 4096)
